@@ -23,7 +23,7 @@ ASSUMPTIONS = ['in-memory backend registered through the public plugin API; ENAB
                'a batch whose processing raised out of the pass is accounted through the error-log event emitted by writeForever()']
 TIMEOUT = {'quick': 900, 'thorough': 3000}
 
-EXCS = ['IOError', 'OSError', 'ValueError', 'InjectedFault', 'KeyError', 'RuntimeError', 'EINTR', 'EAGAIN', 'ENOSPC', 'EIO', 'EROFS', 'EMFILE', 'EACCES']
+EXCS = ['IOError', 'OSError', 'ValueError', 'InjectedFault', 'KeyError', 'RuntimeError', 'EINTR', 'EAGAIN', 'ENOSPC', 'EIO', 'EROFS', 'EMFILE', 'EACCES', 'struct.error', 'OverflowError']
 
 
 def configs(tier, seed):
